@@ -229,6 +229,8 @@ def foreign_cases():
 
 
 def judge_case(record):
+    if "progs" in record["case"]:
+        return judge_shared_namespace(record["case"])["viol"]
     return judge(record["case"])["viol"]
 
 
@@ -251,6 +253,56 @@ def k1_probes():
         yield {"prog": M.program(n, R, splitters=["uid"]), "inputs": [M.enc_inputs({"uid": "u1"})]}
     yield {"prog": M.program("ExperimentConditionalFailedError", M.if_([(M.cmp_(M.ident("x"), "==", M.lit_int("1")), R)], None), splitters=["uid"]),
            "inputs": [M.enc_inputs({"uid": "u1", "x": 2})]}
+
+
+def judge_shared_namespace(case):
+    """several modules generated with DEFAULT arguments, executed into ONE namespace (one experiments.py holding them all): each
+    function still behaves like the evaluator of its own source"""
+    W = sut.wrappers()
+    ns = {}
+    viol = []
+    texts = [M.render(p) for p in case["progs"]]
+    for t in texts:
+        try:
+            exec(compile(W.generate_code(t), "<experiments.py>", "exec"), ns)
+        except Exception as e:
+            return {"viol": ["generate_code with default arguments failed: %s: %s | %s" % (type(e).__name__, e, t)], "tags": ["shared-namespace"], "key": texts}
+    for p, t in zip(case["progs"], texts):
+        res = sut.compile_text(t)
+        fn = ns.get(p["name"])
+        if res[0] != "ok" or not callable(fn):
+            viol.append("%s: evaluator %r / function %r" % (p["name"], res[:2], fn))
+            continue
+        for k, enc in enumerate(case["inputs"]):
+            env = M.dec_inputs(enc)
+            a, b = _call(res[1], env, False, k), _call(fn, env, False, k)
+            if a != b:
+                viol.append("several default-generated modules in one namespace: %s gives %r, its evaluator %r | inputs=%r" % (p["name"], b, a, env))
+                break
+    return {"viol": viol[:3], "nontrivial": True, "tags": ["shared-namespace"], "key": texts, "sample": {"modules_in_one_namespace": [p["name"] for p in case["progs"]]}}
+
+
+def shared_namespace_cases():
+    G = lambda tag, ws: M.ret([(M.lit_str("%s%d" % (tag, j)), w) for j, w in enumerate(ws)])  # noqa: E731
+    progs = [M.program("banner", G("b", ["1", "9"]), salt="banner", splitters=["uid"]),
+             M.program("checkout", M.if_([(M.cmp_(M.ident("plan"), "==", M.lit_str("pro")), G("p", ["2", "1", "1"]))], G("f", ["1", "1"])), salt="checkout", splitters=["uid"]),
+             M.program("ranker", G("r", ["5", "95"]), salt=None, splitters=["uid", "plan"])]
+    inputs = [M.enc_inputs({"uid": "u%d" % j, "plan": ["pro", "free"][j % 2]}) for j in range(40)]
+    yield {"progs": progs, "inputs": inputs}
+    yield {"progs": progs[::-1], "inputs": inputs}
+
+
+def duplicate_return_programs():
+    """chains in which NON-adjacent links return identical statements, with inputs that satisfy the link in between as well"""
+    I, L, S = M.ident, M.lit_int, M.lit_str
+    Rr = M.ret([(S("same"), "1"), (S("same2"), "3")])
+    Ss = M.ret([(S("between"), "1")])
+    T = M.ret([(S("rest"), "1")])
+    for body in (M.if_([(M.cmp_(I("a"), "==", L("1")), Rr), (M.cmp_(I("b"), "==", L("1")), Ss), (M.cmp_(I("c"), "==", L("1")), Rr)], T),
+                 M.if_([(M.cmp_(I("a"), "==", L("1")), Rr), (M.cmp_(I("b"), "==", L("1")), Ss), (M.cmp_(I("c"), "==", L("1")), Rr), (M.cmp_(I("b"), "==", L("2")), Ss)], None),
+                 M.if_([(M.cmp_(I("a"), ">", L("5")), T), (M.cmp_(I("b"), ">", L("5")), Rr), (M.cmp_(I("c"), ">", L("5")), T)], Rr)):
+        envs = [{"uid": "u%d" % j, "a": a, "b": b, "c": c} for j, (a, b, c) in enumerate([(0, 1, 1), (1, 1, 1), (0, 0, 1), (0, 2, 1), (9, 9, 9), (0, 9, 9), (0, 0, 9), (0, 0, 0), (1, 0, 0)])]
+        yield {"prog": M.program("exp", body, salt="s", splitters=["uid"]), "inputs": [M.enc_inputs(e) for e in envs]}
 
 
 def own_fixed_programs():
@@ -290,6 +342,12 @@ def run(ctx, rec):
         if rec.violations:
             return
         runner.direct_run(ctx, rec, "edge-literals", own_fixed_programs(), judge, known_filter=known_filter)
+        if rec.violations:
+            return
+        runner.direct_run(ctx, rec, "non-adjacent-links-with-identical-statements", duplicate_return_programs(), judge)
+        if rec.violations:
+            return
+        runner.direct_run(ctx, rec, "default-generated-modules-in-one-namespace", shared_namespace_cases(), judge_shared_namespace)
         if rec.violations:
             return
     if ctx.shard == 0:
